@@ -589,6 +589,119 @@ ENUMS = {  # metamodel enumerations by the SDK's member names (the value univers
 DEFAULTS = {("Submodel", "kind"): ("VStr", "INSTANCE"), ("SubmodelElementList", "order_relevant"): ("VBool", True),
             ("Qualifier", "kind"): ("VStr", "CONCEPT_QUALIFIER")}
 REFS = ["ModelReference", "ExternalReference"]
+# class of the value universe -> definition name in the schemas (XSD group = the same with a lower-case first letter)
+CLASSMAP = {"ExternalReference": "Reference", "ModelReference": "Reference",
+            "DataSpecificationIEC61360": "DataSpecificationIec61360",
+            "MultiLanguageNameType": "LangStringNameType", "MultiLanguageTextType": "LangStringTextType",
+            "DefinitionTypeIEC61360": "LangStringDefinitionTypeIec61360",
+            "PreferredNameTypeIEC61360": "LangStringPreferredNameTypeIec61360",
+            "ShortNameTypeIEC61360": "LangStringShortNameTypeIec61360"}
+# XSD value types (Python class names of the value universe) -> DataTypeDefXsd literal; every other enumeration member
+# is spelled like its name (MODEL_REFERENCE -> ModelReference, INPUT -> input): checked in Coq by [literal_ok]
+XSD_NAME = {"int": "xs:integer", "float": "xs:double", "Float": "xs:float", "str": "xs:string",
+            "relativedelta": "xs:duration", "datetime": "xs:dateTime", "time": "xs:time", "bool": "xs:boolean",
+            "Decimal": "xs:decimal"}
+# the SDK's name of the enum <-> string table of each metamodel enumeration (gen/Gen_JsonRules.v tbl_<name>)
+ENUM_TABLE = {"KeyTypes": "KEY_TYPES", "QualifierKind": "QUALIFIER_KIND", "AssetKind": "ASSET_KIND",
+              "ModellingKind": "MODELLING_KIND", "EntityType": "ENTITY_TYPES", "Direction": "DIRECTION",
+              "StateOfEvent": "STATE_OF_EVENT", "DataTypeIEC61360": "IEC61360_DATA_TYPES",
+              "IEC61360LevelType": "IEC61360_LEVEL_TYPES", "xsdtype": "XSD_TYPE_NAMES",
+              "keytypeclass": "KEY_TYPE_OF_CLASS"}
+# AASd-005: a revision exists only together with a version
+UNDER = {("AdministrativeInformation", "revision"): "version"}
+
+
+def xsd_literal(pyname):
+    return XSD_NAME.get(pyname) or "xs:" + pyname[0].lower() + pyname[1:]
+
+
+def spec_writer(j, explicit):
+    """The mapping as *writer rule tables* (types of model/Codec.v), derived from the schema tables, aasgen.META and the
+    mapping names only - not from the SDK's writer: class -> (constants, [(member, attr, cond, enc)]).
+    explicit: write attributes that hold their metamodel default explicitly (else leave them out where expressible)."""
+    import aasgen
+    jc = {c: {m: (r, ty) for m, r, ty in ps} for c, ps in j["classes"].items()}
+    out = {}
+
+    def wrapper(scls):
+        rows = j["classes"].get(scls, [])
+        return rows[0] if len(rows) == 1 else None
+
+    metas = dict(aasgen.META)
+    metas["LangString"] = [("language", "str"), ("text", "str")]
+    for cls, attrs in metas.items():
+        scls = {"LangString": "LangStringTextType"}.get(cls) or CLASSMAP.get(cls, cls)
+        if scls not in jc:
+            raise Fail(f"spec writer: no schema definition for {cls}")
+        consts = []
+        if cls in REFS:
+            consts.append(("type", cls))
+        mt = jc[scls].get("modelType")
+        if mt and mt[1][0] == "enum" and len(mt[1][1]) == 1:
+            consts.append(("modelType", mt[1][1][0]))
+        rules = []
+        for attr, kind in attrs:
+            member = MEMBER[attr]
+            row = jc[scls].get(member)
+            if row is None:
+                raise Fail(f"spec writer: {scls} has no member {member} for {cls}.{attr}")
+            ty = row[1]
+            bare = kind.split(":", 1)[0]
+            opt = kind[0] == "o" and bare not in ("obj",) or kind in ("leaf",)
+            if bare in ("enum", "oenum"):
+                enc = ("EEnum", ENUM_TABLE[kind.split(":", 1)[1]])
+            elif kind in ("xsdtype", "oxsdtype"):
+                enc = ("EEnum", ENUM_TABLE["xsdtype"])
+            elif kind == "keytypeclass":
+                enc = ("EEnum", ENUM_TABLE["keytypeclass"])
+            elif kind in ("leaf", "odatetime", "oduration", "obytes"):
+                enc = ("ELeaf",)
+            elif kind == "set:enum:IEC61360LevelType":
+                enc = ("ELevel", ENUM_TABLE["IEC61360LevelType"])
+            elif ty[0] == "arr" and ty[1][0] == "obj" and wrapper(ty[1][1]) and not kind.endswith(ty[1][1]) \
+                    and not kind.startswith(("olang", "lang")) and ty[1][1] not in CLASSMAP.values():
+                enc = ("EListWrap", wrapper(ty[1][1])[0])
+            elif ty[0] == "obj" and wrapper(ty[1]) and wrapper(ty[1])[2][0] == "arr" and bare in ("oset", "set", "list"):
+                enc = ("EObjWrap", wrapper(ty[1])[0])
+            else:
+                enc = ("EAuto",)
+            dflt = DEFAULTS.get((cls, attr))
+            if (cls, attr) in UNDER:
+                cond = ("WTruthyUnder", UNDER[(cls, attr)])
+            elif any(u == attr and c == cls for (c, _), u in UNDER.items()):
+                cond = ("WTruthy",)
+            elif dflt is not None:
+                members = ENUMS.get(kind.split(":", 1)[1], []) if ":" in kind else []
+                if not explicit and dflt[0] == "VStr" and len(members) == 2:
+                    cond = ("WEquals", [m for m in members if m != dflt[1]][0])
+                else:
+                    cond = ("WAlways",)
+            elif opt:
+                cond = ("WNotNone",)
+            elif (cls, attr) in MIN_ONE:
+                cond = ("WAlways",)
+            elif bare in ("list", "set") or kind in ("reflist", "refset"):
+                cond = ("WNonEmpty",)
+            else:
+                cond = ("WAlways",)
+            rules.append((member, attr, cond, enc))
+        out[cls] = (consts, rules)
+    return out
+
+
+def coq_spec_writer(name, sw):
+    def cond(c):
+        return c[0] if len(c) == 1 else f"{c[0]} {q(c[1])}"
+
+    def enc(e):
+        if e[0] in ("EEnum", "ELevel"):
+            return f"{e[0]} tbl_{e[1]}"
+        return e[0] if len(e) == 1 else f"{e[0]} {q(e[1])}"
+    rows = []
+    for cls, (consts, rules) in sw.items():
+        rows.append(f"  ({q(cls)}, ([" + "; ".join(f"({q(a)}, {q(b)})" for a, b in consts) + "],\n     [" +
+                    ";\n      ".join(f"mkW {q(m)} {q(a)} ({cond(c)}) ({enc(e)}) false" for m, a, c, e in rules) + "]))")
+    return [f"Definition {name} : list (string * (list (string * string) * list wrule)) := [", ";\n".join(rows) + "]."]
 
 
 def string_type(cls, attr):
@@ -879,6 +992,7 @@ def translate():
     rules = jsonrules.translate()
     return dict(json=j, xsd=x, meta=meta, jlex=jlex, xlex=xlex, json_tops=tops,
                 json_triples=json_triples(rules, j, meta, tops),
+                spec_w_min=spec_writer(j, False), spec_w_explicit=spec_writer(j, True),
                 string_types=STRING_TYPES, lang_text=LANG_TEXT)
 
 
@@ -898,7 +1012,7 @@ def emit_json(t):
     out = ["(* GENERATED by tools/py2coq/schemas.py from compliance_tool/aas_compliance_tool/schemas/aasJSONSchema.json of the",
            "   current working tree (+ the specification-side metamodel table of that module).  Do not edit. *)",
            "From Coq Require Import List String NArith.",
-           "From Basyx Require Import model.Codec model.SchemaBase model.Schema.",
+           "From Basyx Require Import model.Codec model.SchemaBase model.Schema gen.Gen_JsonRules.",
            "Import ListNotations.", "Local Open Scope string_scope.", "",
            "(* pattern ids: J<n> = n-th distinct `pattern` text of the JSON schema (texts in build/schemas.json) *)",
            "Definition json_schema : jschema := ["]
@@ -913,6 +1027,13 @@ def emit_json(t):
     out.append("(* top-level lists of _create_dict: (member, class) in emission order *)")
     out.append("Definition json_tops : list (string * string) := [" +
                "; ".join(f"({q(m)}, {q(c)})" for m, c in t["json_tops"]) + "].")
+    out.append("(* specification side: XSD value types by Python class name -> DataTypeDefXsd literal *)")
+    out.append("Definition spec_xsd_names : table := [" +
+               "; ".join(f"({q(n)}, {q(xsd_literal(n))})" for n in XSD_TYPES + ["NormalizedString"]) + "].")
+    out.append("(* the mapping as writer rules, derived from the schema tables, META and the mapping names (the enum <-> string")
+    out.append("   tables are the SDK's, checked against the schema literals and the mapping's spelling by [conforms]) *)")
+    out += coq_spec_writer("spec_w_min", t["spec_w_min"])
+    out += coq_spec_writer("spec_w_explicit", t["spec_w_explicit"])
     out.append("(* candidate set of (SDK class, context, schema class) triples; re-checked by [conforms] *)")
     out.append("Definition json_triples : list triple := [" +
                ";\n  ".join(f"({q(a)}, {q(b)}, {q(c)})" for a, b, c in t["json_triples"]) + "].")
